@@ -72,7 +72,7 @@ CLAIMED["C26"] = ("memsim", "exploration", "deterministic simulation: seeded his
 CLAIMED["C27"] = ("memsim", "exploration", "deterministic simulation: seeded put_memory_card / mesh / commit / restart / process-death histories vs a reference model, with temporal queries at random times",
     "Random cards (entities, slots, kinds, event/document dates with ties and gaps, explicit created_at, version relations incl. retractions) and logic-mesh nodes/edges are added between documents, commits, clean restarts and process death. get_memory_at_time / get_current_memory at random times are compared with a reference (newest non-retracted effective time not after t; never a retraction; never from the future; equal to current at or beyond the latest card). At every commit, reopen, read-only open and crash image the caller-made card set and the mesh must equal the model's.",
     "Cards and mesh entries are not logged: they become durable at the next commit; the model loses un-committed ones on process death. Ties in effective time: any tied card is accepted.", "DESIGN.md section 7 C27")
-CLAIMED["C31"] = ("memsim", "exploration", "deterministic simulation: find_last_valid_footer vs a naive reference scan on every faulted image the simulator produces (footer-targeted faults included)",
+CLAIMED["C31"] = ("memsim", "fault_enumeration", "deterministic simulation: find_last_valid_footer vs a naive reference scan on every faulted image the simulator produces (footer-targeted faults included)",
     "On every medium-fault image (flips and garbage in footer fields, stale footers left by truncation and splices, misdirected copies of footers) the public find_last_valid_footer is compared with a naive scan that returns the last offset at which magic, length and hash of a footer are all consistent.",
     "Domain: images reachable by simulated faults from real files, not all byte strings.", "DESIGN.md section 7 C31")
 CLAIMED["C40"] = ("memsim", "exploration", "deterministic simulation: the same seeded document set ingested through the bulk paths and through plain puts under one simulated environment; differential comparison live and after reopen",
